@@ -28,7 +28,7 @@ prop("C09", True,
      "virtual clock hook; arbitrary valid scripts (C10's generator, all scripts of small pairs) through Compact+Replace are part of this check too")
 prop("C11", True,
      "property-based testing: enumeration + proptest generation against an exact carried-index walk and an independent hunk-header computation; known finding attributed by differential re-execution with the swap-repair hook",
-     "Generated-input search; each case is judged on pinned behaviour first; a carried-index/header mismatch is re-executed with the swap repair on and only counts as the known finding D7 if it disappears, otherwise it is reported. Primary-index mismatches are always reported.",
+     "Generated-input search (captures without a deadline and under a deadline that runs out); each case is judged on pinned behaviour first; a carried-index/header mismatch is re-executed with the swap repair on and only counts as the known finding D7 if it disappears, otherwise it is reported. Primary-index mismatches are always reported.",
      "swap-repair hook used for attribution only; known finding listed in KNOWN_FINDINGS.txt")
 
 prop("C04", True,
@@ -45,8 +45,8 @@ prop("C06", True,
      "reference splitters are the trusted base; unicode segmentation is only required to be a lossless partition")
 prop("C07", True,
      "fault enumeration with property-based generation: for every generated input every deadline-probe index k (virtual clock hook) is executed against the C01/C02/C09 oracles, a post-expiry comparison counter, metamorphic relations (never-expiring == none, k>=T == none) and plumbing differentials",
-     "The harness owns time: the k-th deadline probe reports expiry. For each input all k in 0..=T (T<=64) or a sample are executed; validity, finish-once, promptness (<= 4(N+M)+16 comparisons after expiry), equality with no deadline when not reached, plumbing through TextDiffConfig::deadline/timeout and capture_diff_slices_deadline, and the real clock at its two extremes are checked.",
-     "probe-indexed time: a change that only probes less often is invisible; promptness constant calibrated with >= 4x head-room", "fault_enumeration")
+     "The harness owns time: the k-th deadline probe reports expiry. For each input all k in 0..=T (T<=64) or a sample are executed; validity, finish-once, promptness (<= 4(N+M)+16 comparisons after expiry), equality with no deadline when not reached, plumbing through TextDiffConfig::deadline/timeout and capture_diff_slices_deadline, and the real clock are checked: a deadline already passed (total comparison budget), a deadline one hour ahead, a real deadline that passes in mid-run (an item whose == waits for it; bounded later comparisons), never-expiring deadlines on inputs with shortest scripts of thousands of edits, and a builder whose absolute deadline was configured earlier.",
+     "probe-indexed time cannot see a probe that is consulted too rarely; the three real-clock runs do, with timing-independent verdicts; promptness constants calibrated with >= 4x head-room", "fault_enumeration")
 prop("C08", True,
      "fault enumeration with property-based generation: for every generated (input, algorithm, adapter stack, hook flavour) every hook-call index is made to fail; oracle = prefix relation with the success log, exact error value, finish-once-and-last",
      "A recording hook fails at call k for every k of the success log, through 12 adapter stacks (incl. Replace<Replace>, replayed captured ops, one adapter instance used for two diffs) and both replace flavours, plus hook methods called by hand (replace events with empty sides); the diff must return exactly Err(k) with no further call, the calls seen must be a prefix of the success log; finish exactly once and last; NoFinishHook and &mut forwarding and default replace expansion are checked differentially.",
@@ -56,12 +56,12 @@ prop("C10", True,
      "Arbitrary valid scripts (not only algorithm output) are the input histories; outputs must stay valid scripts with identical deleted/inserted counts, be complete at finish, be in normal form through both adapters and carry exact indices through Replace alone (also when one Replace adapter is fed twice); no panic (debug assertions on).",
      "scripts validated by the C01 validator before use (generator self-test => exit 2)")
 prop("C12", True,
-     "property-based testing: enumeration of alternating op lists + proptest generation (run lengths biased to n, 2n, 2n+1) against a reference grouping written from the statement and clause-wise predicates; differential between group_diff_ops, Capture::into_grouped_ops and TextDiff::grouped_ops",
+     "property-based testing: enumeration of op lists (alternating, and with adjacent non-Equal ops) + proptest generation (run lengths biased to n, 2n, 2n+1) against a reference grouping written from the statement and clause-wise predicates; differential between group_diff_ops, Capture::into_grouped_ops and TextDiff::grouped_ops",
      "Synthetic and real op lists x radius n: flattened changes preserved, no all-equal group, edge context <= n, interior <= 2n, equality with the reference grouping modulo zero-length Equal ops.",
-     "domain = alternating lists as stated; zero-length Equal ops tolerated")
+     "domain = valid op lists without two adjacent Equal ops; zero-length Equal ops tolerated")
 prop("C13", True,
      "property-based testing: enumeration + proptest generation of single ops over injectively valued sequences against an exact expected expansion; differential whole-diff vs per-op iteration",
-     "Every op kind with arbitrary offsets/lengths expands to the exact expected (tag, indices, value) vector; an iterator-protocol script (next/nth/size_hint, fold-based consumers after partial consumption) walks the same expansion; slices agree; apply_to_hook round-trips; TextDiff/UnifiedDiffHunk whole iteration (also over hand-built op lists with empty ops, reversed lists, Equal-as-Replace lists) equals concatenated per-op expansion.",
+     "Every op kind with arbitrary offsets/lengths expands to the exact expected (tag, indices, value) vector; an iterator-protocol script (next/nth/size_hint, fold-based consumers after partial consumption) walks the same expansion; every iterator of the crate (per-op, whole-diff, hunk, hunk list) agrees with its next() walk under every std consumer, fresh and partially consumed; slices agree; apply_to_hook round-trips; TextDiff/UnifiedDiffHunk whole iteration (also over hand-built op lists with empty ops, reversed lists, Equal-as-Replace lists) equals concatenated per-op expansion.",
      "in-bounds by construction")
 prop("C14", True,
      "property-based testing: proptest generation of texts with token counts on both sides of the 100-token switch; differential oracle TextDiff::ops vs capture_diff_slices over the tokenizer output; IdentifyDistinct id-equality oracle over 5 integer types",
@@ -69,7 +69,7 @@ prop("C14", True,
      "differential between two paths of the library plus an independent id-equality check")
 prop("C15", True,
      "property-based testing: enumeration over a 4-letter alphabet + proptest generation with unique markers against a patience-sorting (LIS) reference",
-     "Counts the unique-common items reported Equal (raw and captured) and compares with the LIS of their positions computed independently; also rejects matching a unique item to a different position; coarse-hash items, different item types on the two sides and two windows of ONE buffer are covered.",
+     "Counts the unique-common items reported Equal (raw and captured) and compares with the LIS of their positions computed independently; also rejects matching a unique item to a different position; coarse-hash items, different item types on the two sides, two windows of ONE buffer and inputs with more than 2^16 distinct items are covered.",
      "no deadline; reference LIS is the trusted base")
 prop("C16", True,
      "property-based testing: proptest generation of word-level mutated line texts (str and [u8] incl. invalid UTF-8) x inline deadline variants (virtual clock) against a lossless re-split oracle and the plain expansion as reference",
@@ -84,12 +84,12 @@ prop("C18", True,
      "Result must equal the first n entries of the exhaustive ranking (ratio desc, candidate asc) of candidates with ratio >= cutoff; pre-filters may never drop a qualifying candidate.",
      "u32 scaling of ratios is injective for the generated sizes; f32 expression identical to the documented formula; byte strings with invalid UTF-8 use std's maximal-subpart decoding as the character reference")
 prop("C19", True,
-     "property-based testing with a comparison-counting element type: proptest generation of near-identical/periodic/reversed/unrelated families; oracle = measured comparisons <= c*(N+M+1)*(D+1)",
+     "property-based testing with a comparison-counting element type: proptest generation of near-identical/periodic/reversed/unrelated families, full slices and windows of larger buffers; oracle = measured comparisons <= c*(N+M+1)*(D+1)",
      "Work is measured, not timed: PartialEq calls are counted and compared with the documented bound with calibrated constants (4 Myers, 6 Patience; measured maxima reported); runaway executions are aborted by the counter and reported as violations.",
      "constants calibrated with >= 2.5x head-room; decides 'within c x of O((N+M)D)', not the asymptotic statement")
 prop("C20", True,
      "property-based testing / metamorphic: repeated and multi-threaded executions with fresh hasher seeds, order-preserving injective relabellings to other types, str vs [u8] differential",
-     "Same inputs => same ops across 9 executions in-thread and 4 fresh threads (and 5 + 1 with a deadline that has already passed); relabelled inputs (u64, String, coarse-hash items, different item types per side, caller-defined DiffableStr tokens compared by key in a text diff) => same ops; str and [u8] text diffs agree for lines/words/chars.",
+     "Same inputs => same ops across 9 executions in-thread and 4 fresh threads (and 5 + 1 with a deadline that has already passed), and again after aborted and timed-out diffs on the same thread; relabelled inputs (u64, String, coarse-hash items, different item types per side, caller-defined DiffableStr tokens compared by key in a text diff) => same ops; str and [u8] text diffs agree for lines/words/chars.",
      "hasher seeds are not controllable: detection of a hash-order leak is probabilistic per input, near-certain over thousands")
 
 def main():
